@@ -41,6 +41,7 @@ pub const PROPS: [&str; 10] = ["C01", "C06", "C07", "C13", "C14", "C15", "C16", 
 fn dispatch(sim: &Sim, prop: &str, tier: Tier) -> Outcome {
     match prop {
         "C13" => crate::link_clean::run(sim, prop, tier),
+        "C06" => crate::link_hostile::run_c06(sim, prop, tier),
         _ => panic!("unknown property {}", prop),
     }
 }
@@ -82,15 +83,19 @@ pub fn run_once(prop: &str, tier: Tier, tape: Tape, trace: bool) -> RunOutput {
 }
 
 /// Shrinks a failing tape: truncate, delete blocks, zero blocks, lower values.
-/// A candidate is kept only if the *same clause* still fails.
-pub fn shrink(prop: &str, tier: Tier, tape: Vec<u32>, clause: &str, budget: usize, secs: f64) -> (Vec<u32>, usize) {
+/// A candidate is kept only if the *same clause* still fails with the same
+/// signature (so that shrinking cannot slip from one defect into another).
+pub fn shrink(prop: &str, tier: Tier, tape: Vec<u32>, clause: &str, signature: &str, budget: usize, secs: f64) -> (Vec<u32>, usize) {
     let start = Instant::now();
     let mut tried = 0usize;
     let mut best = tape;
     let mut fails = |cand: &Vec<u32>, tried: &mut usize| -> bool {
         *tried += 1;
+        if std::env::var("ROSSSIM_DEBUG_SHRINK").is_ok() {
+            eprintln!("cand #{} len {} {:?}", *tried, cand.len(), &cand[..cand.len().min(60)]);
+        }
         let out = run_once(prop, tier, Tape::replay(cand.clone()), false);
-        matches!(&out.violation, Some(v) if v.clause == clause)
+        matches!(&out.violation, Some(v) if v.clause == clause && v.signature == signature)
     };
     let over = |tried: usize| tried >= budget || start.elapsed().as_secs_f64() > secs;
 
